@@ -359,9 +359,12 @@ def parent_main(a):
             lines.append(f"KNOWN-FINDING: property={pid} {k['prose']} [clause={k.get('clause')} kind={k.get('kind')} site={k.get('site')} shape={k.get('shape')}]")
         if others:
             errs = []
-            for v in others[:3]:
+            for v in others[:10]:
                 err = confirm(v["path"])
                 if err is None:
+                    if errs:
+                        lines.append(f"  note: {len(errs)} smaller replay(s) of this class did not reproduce in a fresh interpreter (state carried "
+                                     f"over between runs of one worker?); the one reported does")
                     cnt = sum(x["count"] for x in others)
                     nviol += cnt
                     exit_code = 1
